@@ -139,7 +139,9 @@ let rec gen (s : schema) (size : int) : val0 =
     let n = coll_len (int_of_n lo) size in
     let l = List.init n (fun _ -> (gen k (size - 2), gen v (size - 2))) in
     (* a Vec-backed map may repeat a key *)
-    let l = if ord = KMulti && below 3 = 0 then l @ (match l with (a, _) :: _ -> [(a, gen v (size - 2))] | [] -> []) else dedup_keys k l in
+    (* (repeated keys adjacent: that is how every writer emits them, PlutusMap groups the values of a key) *)
+    let l = dedup_keys k l in
+    let l = if ord = KMulti && below 3 = 0 then (match l with (a, b) :: r -> (a, b) :: (a, gen v (size - 2)) :: r | [] -> []) else l in
     let l = match ord with
       | KInsertion -> l
       | KMulti -> l
@@ -164,8 +166,11 @@ let rec gen (s : schema) (size : int) : val0 =
       (* rejection sampling into the writer image (Coq predicate writer_form) *)
       let v = ref (gen s' size) in
       let tries = ref 0 in
-      while not (writer_form (n_of_int id) !v) && !tries < 50 do v := gen s' (max size 1); incr tries done;
-      !v
+      while not (writer_form (n_of_int id) !v) && !tries < 50 do v := gen s' (max size 2 + !tries / 10); incr tries done;
+      (* a multi-asset value is only written when some policy has an asset: make one if sampling found none *)
+      if id = 5 && not (writer_form (n_of_int id) !v) then
+        VList [VNat (n_of_bz (gen_uint 64)); VMap [(VBytes (gen_bytes 28), VMap [(VBytes (gen_bytes (below 33)), VNat (n_of_bz (gen_uint 64)))])]]
+      else !v
     end
   | SArrOpt (fs, o) ->
     let l = List.map (fun f -> gen f (size - 1)) (slist_to_list fs) in
@@ -237,10 +242,12 @@ let run_mode () = run_driver (fun toks impl ->
             | Ok (v, []) -> if wfv s v then (let re = hex_of_bytes (enc s v) in "ok " ^ re ^ " " ^ re) else "model-outside-domain"
             | Ok (_, _) -> "model-trailing"
             | Err -> "model-err" | Panic -> "model-panic" | OutOfFuel -> "model-outoffuel") in
+          (* known finding C01-plutus-script-language: a stand-alone Plutus script loses its language *)
+          let lang = hre = hb && flags = ["selfcheck:eq-language"] && (name = "PlutusScript" || name = "PlutusScripts") in
           let verdict = if hre = hb && flags = [] then "holds"
-            else if hre = hb && flags = ["selfcheck:eq-language"] && (name = "PlutusScript" || name = "PlutusScripts") then "fails:C01-plutus-script-language"
+            else if lang then "fails:C01-plutus-script-language"
             else "fails:-" in
-          (model, verdict)
+          ((if lang then model ^ " selfcheck:eq-language" else model), verdict)
         | ["deerr"; hb] ->
           let b = bytes_of_hex hb in
           let model = (match dec s b with
